@@ -92,10 +92,11 @@ Section Fresh.
   Theorem fs_refines : forall ops,
     (forall k k', wfb k -> wfb k' -> enc_key cfg k = enc_key cfg k' -> k = k') ->
     hist_ok (@Some (list N)) true spec_empty ops = true -> Forall (op_storable cfg) ops ->
+    forallb atomic_op ops = true ->
     (N.of_nat (length ops) < 2 ^ 254)%N ->
     fs_obs cfg (fstate0 cfg) ops = spec_run (@Some (list N)) true spec_empty ops.
   Proof.
-    intros ops EI OK ST CT. apply (fs_refines_from cfg base_ok EI); auto.
+    intros ops EI OK ST AT CT. apply (fs_refines_from cfg base_ok EI); auto.
     constructor; simpl; auto.
     - apply fresh_good.
     - intros name. destruct (fs_lookup (fs_fresh cfg) (stage_path (f_base cfg) name)) eqn:X; auto.
